@@ -106,7 +106,11 @@ def _type_safe_is_in(a, b):
     if hasattr(a, "isin") and hasattr(getattr(a, "dtype", None), "na_value"):
         # a nullable (masked) column: numpy can not compare its missing entries, which are in no set
         return numpy.asarray(a.isin(b), dtype=bool) & numpy.asarray(a.notna(), dtype=bool)
-    return numpy.isin(a, b)
+    res = numpy.isin(a, b)
+    if hasattr(a, "isna"):
+        # a missing entry is in no set (a None in the list is no exception)
+        res = res & (~numpy.asarray(a.isna(), dtype=bool))
+    return res
 
 
 def _k_add(*args):
@@ -142,19 +146,49 @@ def _true_positions(cond):
     return cond
 
 
+def _is_na_marker(v) -> bool:
+    """
+    True for pandas' <NA>, the one missing value that has no truth value (nan and NaT compare unequal to themselves).
+    """
+    try:
+        bool(v != v)
+    except TypeError:
+        return True
+    except Exception:
+        return False
+    return False
+
+
 def _plain_branch(x):
     """
-    A branch of where / if_else with None for its missing entries, when it is a nullable (masked) column:
-    numpy.where would copy <NA> entries, which have no truth value and can not be compared.
+    A branch of where / if_else with None for its <NA> entries: numpy.where would copy them into its result,
+    and <NA> has no truth value and can not be compared. Numbers and dates are left to numpy, which reads
+    their missing entries as nan / NaT.
     """
-    na_value = getattr(getattr(x, "dtype", None), "na_value", None)
-    if (na_value is not None) and hasattr(x, "to_numpy"):
+    dtype = getattr(x, "dtype", None)
+    if (dtype is None) or (not hasattr(x, "to_numpy")) or (not hasattr(x, "isna")):
+        return x
+    if getattr(dtype, "kind", "O") in "iufcmM":
+        return x
+    na_value = getattr(dtype, "na_value", None)
+    if (na_value is not None) and _is_na_marker(na_value):
+        # a nullable truth value or text column: <NA> is its missing value
+        if x.isna().any():
+            return x.to_numpy(dtype=object, na_value=None)
+        return x
+    if dtype == object:
+        # cells of an object column can hold <NA> (a nullable column cast to object)
         try:
-            bool(na_value != na_value)
-        except TypeError:
-            # <NA> is this column's missing value
-            if x.isna().any():
-                return x.to_numpy(dtype=object, na_value=None)
+            missing = numpy.flatnonzero(numpy.asarray(x.isna(), dtype=bool))
+        except Exception:
+            return x  # cells pandas can not classify (a signalling Decimal nan): as they are
+        if len(missing) > 0:
+            values = x.to_numpy(dtype=object)
+            na_positions = [i for i in missing if _is_na_marker(values[i])]
+            if len(na_positions) > 0:
+                values = numpy.array(values, dtype=object)
+                values[na_positions] = None
+                return values
     return x
 
 
